@@ -667,21 +667,27 @@ EvMore(e, s) ==
                               [s EXCEPT !.doc = L.doc], RevSeq(Upto(Len(L.ctx))))
               IN IF ~Ok(done) THEN done ELSE [s EXCEPT !.doc = done.doc]
     [] e.op \in {"ADD_ASSIGN", "SUBTRACT_ASSIGN", "MULTIPLY_ASSIGN"} ->
-         \* `l op= r`: every match m takes `m op x` for the results x of r (evaluated on the context, read-only); last stays
-         LET L == Ev(e.l, s) IN IF ~Ok(L) THEN L ELSE
-         IF \E i \in DOMAIN L.ctx : ~L.ctx[i].in THEN Fail(s, "unspec")
-         ELSE IF Len(s.ctx) # 1 THEN Fail(s, "unspec")
-         ELSE LET done == FoldLeft(LAMBDA acc, li : IF ~Ok(acc) THEN acc
+         \* `l op= r`: both sides are relative to EACH node of the context (as for `=`); every match m of l takes `m op x`
+         \* for the results x of r (evaluated read-only); the last stays
+         IF s.ctx = <<>> THEN Fail(s, "unspec")
+         ELSE LET perNode(acc0, c) ==
+                    LET sc == [s EXCEPT !.doc = acc0.doc, !.ctx = <<c>>]
+                        L == Ev(e.l, sc) IN
+                    IF ~Ok(L) THEN L
+                    ELSE IF \E i \in DOMAIN L.ctx : ~L.ctx[i].in THEN Fail(acc0, "unspec")
+                    ELSE FoldLeft(LAMBDA acc, li : IF ~Ok(acc) THEN acc
                                 ELSE IF ~Exists(acc.doc, L.ctx[li].p) THEN acc
                                 ELSE LET m0 == ValOf(acc.doc, L.ctx[li])
-                                         Rr == Ev(e.r, RO([s EXCEPT !.doc = acc.doc])) IN
+                                         Rr == Ev(e.r, RO([sc EXCEPT !.doc = acc.doc])) IN
                                      IF ~Ok(Rr) THEN Rr
                                      ELSE FoldLeft(LAMBDA a2, rj : IF ~Ok(a2) THEN a2 ELSE
                                                      LET o == CompoundOp(e.op, m0, ValOf(a2.doc, rj)) IN
                                                      IF o.t = "err" THEN Fail(a2, "err") ELSE IF o.t # "val" THEN Fail(a2, "unspec")
                                                      ELSE [a2 EXCEPT !.doc = Replace(a2.doc, L.ctx[li].p, o.v)],
                                                    [acc EXCEPT !.doc = Rr.doc], Rr.ctx),
-                              [s EXCEPT !.doc = L.doc], Upto(Len(L.ctx)))
+                              [acc0 EXCEPT !.doc = L.doc], Upto(Len(L.ctx)))
+                  done == FoldLeft(LAMBDA acc0, c : IF ~Ok(acc0) THEN acc0 ELSE
+                                     IF c.in /\ ~Exists(acc0.doc, c.p) THEN Fail(acc0, "unspec") ELSE perNode(acc0, c), s, s.ctx)
               IN IF ~Ok(done) THEN done ELSE [s EXCEPT !.doc = done.doc]
     [] e.op = "DELETE_CHILD" ->
          \* `del(sel)`: the selection is evaluated read-only on the whole context; precisely the selected nodes disappear
